@@ -137,6 +137,35 @@ def chk_C05(cs, enc):
     return None
 
 
+def split_from_pipe_stdin(au, cs, data, burst):
+    """split("-") with standard input a real OS pipe (fileno and all) fed by a producer thread in bursts"""
+    import threading
+    import time as _time
+    rfd, wfd = os.pipe()
+
+    def go():
+        with os.fdopen(wfd, "wb") as f:
+            for i in range(0, len(data), burst):
+                f.write(data[i:i + burst]); f.flush()
+                _time.sleep(0.001)
+    th = threading.Thread(target=go, daemon=True)
+    th.start()
+
+    class PipeStdin:
+        buffer = os.fdopen(rfd, "rb")
+    old = sys.stdin
+    sys.stdin = PipeStdin
+    try:
+        return impl_split(au, "-", cs)
+    finally:
+        sys.stdin = old
+        th.join(5)
+        try:
+            PipeStdin.buffer.close()
+        except Exception:
+            pass
+
+
 def expected_by_statement(au, cs):
     """last clause of the statement, evaluated without the model: the regions are the tokenizer segmentation (the tree's own
     StreamTokenizer, judged by C01-C04) of the per-window decisions (the C07 rule, in exact arithmetic) of the input's windows,
@@ -323,8 +352,17 @@ def run(prop, tier):
                     with wave.open(wav_p, "wb") as f:
                         f.setframerate(cs["rate"]); f.setsampwidth(cs["w"]); f.setnchannels(cs["ch"]); f.writeframes(cs["data"])
                     for how, inp, extra in (("raw file, large_file=True", raw_p, dict(large_file=True)), ("raw file", raw_p, {}),
-                                            ("wav file, large_file=True", wav_p, dict(large_file=True)), ("wav file", wav_p, {})):
-                        got = impl_split(au, inp, cs, extra)
+                                            ("wav file, large_file=True", wav_p, dict(large_file=True)), ("wav file", wav_p, {}),
+                                            ("AudioRegion that itself carries a start time", None, {}), ("standard input that is a pipe fed in bursts", "-", {})):
+                        if inp is None:
+                            # a region found by an earlier split (start = 1.25 s there): its sub-regions are located from ITS beginning
+                            got = impl_split(au, au.AudioRegion(cs["data"], cs["rate"], cs["w"], cs["ch"], 1.25), cs)
+                        elif inp == "-":
+                            if len(cs["data"]) > 60000:
+                                continue
+                            got = split_from_pipe_stdin(au, cs, cs["data"], r.choice([97, 251, 1000, 7]) if len(cs["data"]) < 4000 else 4099)
+                        else:
+                            got = impl_split(au, inp, cs, extra)
                         cases.append(model_case(cs)); impl.append(got); meta.append({"via": how, **describe(cs)})
                         if viol is None:
                             wv = chk_C05(cs, got)
@@ -356,6 +394,12 @@ def run(prop, tier):
                 runs["raw by fmt alias"] = impl_split(au, noext, cs, fmt="raw")
                 runs["raw by audio_format, conflicting fmt"] = impl_split(au, noext, cs, audio_format="raw", fmt="wav")
                 runs["BufferAudioSource"] = impl_split(au, aio.BufferAudioSource(d, rate, w, ch), cs)
+                # a region describes itself: audio-parameter keywords given next to it (say, defaults meant for raw inputs) have no say
+                runs["AudioRegion beside contradicting audio-parameter keywords"] = impl_split(
+                    au, au.AudioRegion(d, rate, w, ch), cs, dict(sampling_rate=rate * 2 + 1, sample_width=(2 if w != 2 else 4), channels=ch + 1))
+                runs["AudioRegion beside contradicting short aliases"] = impl_split(au, au.AudioRegion(d, rate, w, ch), cs, dict(sr=rate + 3, sw=(1 if w != 1 else 2), ch=ch + 2))
+                if len(d) < 4000:
+                    runs["stdin that is a real pipe fed in bursts"] = split_from_pipe_stdin(au, cs, d, r.choice([97, 251, 7, 33]))
                 if float(cs["W"] / rate) == cs["aw"]:
                     p = cs["params"]
                     try:
